@@ -50,6 +50,7 @@ type gOut struct {
 	kind      byte
 	cb        bool
 	cbHeight  int // height of the creating block for coinbase outputs
+	grp       int // parallel class: the goroutine group that owns the output
 }
 
 type gBlock struct {
@@ -65,23 +66,28 @@ type gUtxo struct {
 }
 
 type sim struct {
-	r        *core.Rand
-	pol      policy
-	maturity int
-	nextID   int
-	u        *universe
-	defs     []*txDef
-	outs     []gOut           // every output ever created (coinbases on any branch, all defs)
-	spentBy  map[[2]int][]int // abstract outpoint -> defs spending it
-	utxo     map[[2]int]gUtxo // chain view
-	blocks   []gBlock         // active chain above genesis
-	tsList   []int64          // relative timestamps of the active chain incl. genesis
-	ops      []string
-	sub      map[int]bool // submitted at least once
-	mined    map[int]bool // currently in the active chain
-	class    string
-	seenHash map[chainhash.Hash]bool
+	r         *core.Rand
+	pol       policy
+	maturity  int
+	nextID    int
+	u         *universe
+	defs      []*txDef
+	outs      []gOut           // every output ever created (coinbases on any branch, all defs)
+	spentBy   map[[2]int][]int // abstract outpoint -> defs spending it
+	utxo      map[[2]int]gUtxo // chain view
+	blocks    []gBlock         // active chain above genesis
+	tsList    []int64          // relative timestamps of the active chain incl. genesis
+	ops       []string
+	sub       map[int]bool // submitted at least once
+	mined     map[int]bool // currently in the active chain
+	class     string
+	seenHash  map[chainhash.Hash]bool
+	grp       int // >= 0: only outputs / definitions of this group are used (parallel class)
+	cbCounter int
+	defGrp    map[int]int
 }
+
+const parGroups = 8
 
 // genesisTime: the median time of the genesis-only chain.
 var genesisTime = chaincfg.RegressionNetParams.GenesisBlock.Header.Timestamp.Unix()
@@ -92,7 +98,7 @@ func genesisRel() int64 { return -1000000000 }
 func newSim(r *core.Rand, pol policy, maturity int) *sim {
 	s := &sim{r: r, pol: pol, maturity: maturity, nextID: 1,
 		u:       &universe{defs: map[int]*txDef{}, cbs: map[int]*btcutil.Tx{}, hashID: map[chainhash.Hash]int{}},
-		spentBy: map[[2]int][]int{}, utxo: map[[2]int]gUtxo{}, sub: map[int]bool{}, mined: map[int]bool{}, seenHash: map[chainhash.Hash]bool{}}
+		spentBy: map[[2]int][]int{}, utxo: map[[2]int]gUtxo{}, sub: map[int]bool{}, mined: map[int]bool{}, seenHash: map[chainhash.Hash]bool{}, grp: -1, defGrp: map[int]int{}}
 	s.tsList = []int64{genesisRel()}
 	return s
 }
@@ -203,7 +209,8 @@ func (s *sim) connect(txs []int) {
 	s.u.cbs[cbID] = cb
 	for i := 0; i < cbOuts; i++ {
 		s.utxo[[2]int{cbID, i}] = gUtxo{h, true}
-		s.outs = append(s.outs, gOut{cbID, i, cbValue(cbOuts), 'p', true, h})
+		s.outs = append(s.outs, gOut{cbID, i, cbValue(cbOuts), 'p', true, h, s.cbCounter % parGroups})
+		s.cbCounter++
 	}
 	s.blocks = append(s.blocks, blk)
 	s.tsList = append(s.tsList, ts)
@@ -265,6 +272,9 @@ type txOpts struct {
 func (s *sim) unspentOuts(allowImmature bool) []gOut {
 	var l []gOut
 	for _, o := range s.outs {
+		if s.grp >= 0 && o.grp != s.grp {
+			continue
+		}
 		if len(s.spentBy[[2]int{o.txid, o.idx}]) > 0 {
 			continue
 		}
@@ -285,6 +295,9 @@ func (s *sim) unspentOuts(allowImmature bool) []gOut {
 func (s *sim) spentOuts() []gOut {
 	var l []gOut
 	for _, o := range s.outs {
+		if s.grp >= 0 && o.grp != s.grp {
+			continue
+		}
 		if len(s.spentBy[[2]int{o.txid, o.idx}]) > 0 {
 			l = append(l, o)
 		}
@@ -519,13 +532,14 @@ func (s *sim) newTx(o txOpts) *txDef {
 	d.fee, d.vsize, d.ssize, d.size, d.bits = s.u.facts(d, 2, s.pol.minRelayFee)
 	s.nextID = d.id + 1
 	s.defs = append(s.defs, d)
+	s.defGrp[d.id] = s.grp
 	for _, in := range d.ins {
 		k := [2]int{in.txid, in.idx}
 		s.spentBy[k] = append(s.spentBy[k], d.id)
 	}
 	for i, ot := range d.outs {
 		if ot.kind == 'p' || ot.kind == 't' {
-			s.outs = append(s.outs, gOut{d.id, i, ot.value, ot.kind, false, 0})
+			s.outs = append(s.outs, gOut{d.id, i, ot.value, ot.kind, false, 0, s.grp})
 		}
 	}
 	return d
@@ -556,14 +570,24 @@ func (s *sim) baseChain(n int) {
 func (s *sim) submit(d *txDef) {
 	s.sub[d.id] = true
 	ao := b01(s.r.Chance(85, 100))
-	s.ops = append(s.ops, fmt.Sprintf("P:%d:%d:%d:%d:0:-", d.id, ao, b01(s.r.Bool()), s.r.Intn(3)))
+	tag := s.r.Intn(3)
+	if s.grp >= 0 {
+		tag = s.grp
+	}
+	s.ops = append(s.ops, fmt.Sprintf("P:%d:%d:%d:%d:0:-", d.id, ao, b01(s.r.Bool()), tag))
 }
 
 func (s *sim) randomDef() *txDef {
-	if len(s.defs) == 0 {
+	var l []*txDef
+	for _, d := range s.defs {
+		if s.grp < 0 || s.defGrp[d.id] == s.grp {
+			l = append(l, d)
+		}
+	}
+	if len(l) == 0 {
 		return nil
 	}
-	return s.defs[s.r.Intn(len(s.defs))]
+	return l[s.r.Intn(len(l))]
 }
 
 func (s *sim) randomOpts() txOpts {
@@ -613,11 +637,12 @@ func (s *sim) replacementOf(d *txDef, fee int64) *txDef {
 	n.fee, n.vsize, n.ssize, n.size, n.bits = s.u.facts(n, 2, s.pol.minRelayFee)
 	s.nextID++
 	s.defs = append(s.defs, n)
+	s.defGrp[n.id] = s.grp
 	for _, in := range n.ins {
 		k := [2]int{in.txid, in.idx}
 		s.spentBy[k] = append(s.spentBy[k], n.id)
 	}
-	s.outs = append(s.outs, gOut{n.id, 0, total - fee, 'p', false, 0})
+	s.outs = append(s.outs, gOut{n.id, 0, total - fee, 'p', false, 0, s.grp})
 	return n
 }
 
@@ -657,12 +682,13 @@ func (s *sim) txFrom(ins [][2]int, ghost bool, nOut int, fee int64) *txDef {
 	d.fee, d.vsize, d.ssize, d.size, d.bits = s.u.facts(d, 2, s.pol.minRelayFee)
 	s.nextID = d.id + 1
 	s.defs = append(s.defs, d)
+	s.defGrp[d.id] = s.grp
 	for _, in := range d.ins {
 		k := [2]int{in.txid, in.idx}
 		s.spentBy[k] = append(s.spentBy[k], d.id)
 	}
 	for i, ot := range d.outs {
-		s.outs = append(s.outs, gOut{d.id, i, ot.value, ot.kind, false, 0})
+		s.outs = append(s.outs, gOut{d.id, i, ot.value, ot.kind, false, 0, s.grp})
 	}
 	return d
 }
@@ -725,7 +751,11 @@ func (s *sim) orphanDoubleSpends() {
 	for _, d := range order {
 		s.submit(d)
 	}
-	switch r.Intn(3) {
+	how := r.Intn(3)
+	if s.grp >= 0 && how == 2 {
+		how = 0 // no blocks inside a parallel group
+	}
+	switch how {
 	case 0:
 		s.submit(P)
 	case 1:
@@ -746,8 +776,13 @@ func (s *sim) orphanDoubleSpends() {
 
 // scenario produces one history of about n steps.
 func (s *sim) scenario(n int, withBlocks bool) {
+	s.baseChain(s.maturity + 1 + s.r.Intn(3))
+	s.scenarioBody(n, withBlocks)
+	s.ops = append(s.ops, "T")
+}
+
+func (s *sim) scenarioBody(n int, withBlocks bool) {
 	r := s.r
-	s.baseChain(s.maturity + 1 + r.Intn(3))
 	var pending []*txDef // created, not yet submitted
 	for step := 0; step < n; step++ {
 		x := r.Intn(100)
@@ -805,9 +840,15 @@ func (s *sim) scenario(n int, withBlocks bool) {
 				s.orphanDoubleSpends()
 			}
 		case x < 74:
-			s.ops = append(s.ops, fmt.Sprintf("G:%d", r.Intn(3)))
+			tag := r.Intn(3)
+			if s.grp >= 0 {
+				tag = s.grp
+			}
+			s.ops = append(s.ops, fmt.Sprintf("G:%d", tag))
 		case x < 80:
-			s.ops = append(s.ops, "T")
+			if s.grp < 0 {
+				s.ops = append(s.ops, "T")
+			}
 		case x < 92:
 			if withBlocks {
 				s.connect(s.pickBlockTxs(int(r.Pick(0, 40, 80, 100)), int(r.Pick(0, 0, 20, 60))))
@@ -825,7 +866,6 @@ func (s *sim) scenario(n int, withBlocks bool) {
 			}
 		}
 	}
-	s.ops = append(s.ops, "T")
 }
 
 // reorg: the chain itself reorganises (k blocks detached, k+1 attached) when a
@@ -938,11 +978,81 @@ func (P) Generate(g0 *core.Gen) {
 		}
 		g.Case("orphan-double-spends", len(s.defs) >= 3, s.line())
 	}
-	for i := 0; i < g.N(800, 6000); i++ {
+	for i := 0; i < g.N(500, 6000); i++ {
 		r := g.R.Fork()
 		s := newSim(r, randomPolicy(r), int(r.Pick(1, 2, 2, 3)))
 		s.scenario(int(r.Pick(8, 15, 25, 40)), false)
 		g.Case("pool-only", len(s.defs) >= 3, s.line())
+	}
+	// concurrent callers: 8 goroutines, each issuing its own history over its own coinbase outputs.  The
+	// groups cannot interfere (disjoint outputs, tags, no orphan pressure), so every interleaving must end in
+	// the state the model reaches by running the groups one after the other; the real state must also
+	// satisfy the invariants.  Lines whose sequential run met an unobservable map-order choice are skipped.
+	{
+		type cand struct {
+			seq, par string
+			nt       bool
+			ok       bool
+		}
+		cands := make([]cand, g.N(64, 900))
+		for k := range cands {
+			r := g.R.Fork()
+			pol := randomPolicy(r)
+			pol.maxOrphans = 100
+			s := newSim(r, pol, 1)
+			for s.cbCounter < 3*parGroups {
+				s.connect(nil)
+			}
+			s.connect(nil) // matures the last coinbase
+			base := strings.Join(s.ops, ";")
+			var groups []string
+			for grp := 0; grp < parGroups; grp++ {
+				s.grp = grp
+				s.ops = nil
+				s.scenarioBody(int(r.Pick(4, 8, 12)), false)
+				groups = append(groups, strings.Join(s.ops, ";"))
+			}
+			s.grp = -1
+			s.ops = []string{base}
+			for _, gr := range groups {
+				if gr != "" {
+					s.ops = append(s.ops, gr)
+				}
+			}
+			seq := s.line() // groups one after the other
+			tok := strings.Fields(seq)
+			tok[1] = "par"
+			tok[5] = base + "/" + strings.Join(groups, "/")
+			cands[k] = cand{seq: seq, par: strings.Join(tok, " "), nt: len(s.defs) >= parGroups}
+		}
+		// sequential dry run of every candidate (in parallel): lines that met a map-order choice are dropped
+		var wg sync.WaitGroup
+		ch := make(chan int)
+		for w := 0; w < min(12, runtime.NumCPU()); w++ {
+			wg.Add(1)
+			go func() {
+				defer wg.Done()
+				for k := range ch {
+					func() {
+						defer func() { recover() }()
+						final, out := execRecord(cands[k].seq)
+						cands[k].ok = final == cands[k].seq && !strings.Contains(out, "nd") && !strings.Contains(out, "bad")
+					}()
+				}
+			}()
+		}
+		for k := range cands {
+			ch <- k
+		}
+		close(ch)
+		wg.Wait()
+		made := 0
+		for _, c := range cands {
+			if c.ok && made < g.N(40, 600) {
+				g.Case("concurrent", c.nt, c.par)
+				made++
+			}
+		}
 	}
 	// exploration only (thorough tier): the same kind of history issued from 8 goroutines; invariants of
 	// the real state at quiescence
@@ -954,7 +1064,7 @@ func (P) Generate(g0 *core.Gen) {
 			g.Case("concurrent-exploration", len(s.defs) >= 3, strings.Replace(s.line(), "C10 run ", "C10 conc ", 1))
 		}
 	}
-	for i := 0; i < g.N(1200, 9000); i++ {
+	for i := 0; i < g.N(800, 9000); i++ {
 		r := g.R.Fork()
 		s := newSim(r, randomPolicy(r), int(r.Pick(1, 2, 2, 3)))
 		s.scenario(int(r.Pick(10, 20, 30, 50)), true)
